@@ -316,4 +316,48 @@ theorem slices_spec (fuel : Nat) : ∀ (i : IIndex) (base : List Int), WF i → 
         simp [hiCells] at hhi
         exact ⟨(base, i), rfl, by simp [hhi]⟩
 
+/-- `slices1d()` without the fuel: every yielded pair is a labelled column, every column is yielded -/
+theorem slices_labelled (i : IIndex) (h : WF i) :
+    (∀ p ∈ i.slices, ∃ hi ∈ hiCells (i.shape.drop 1),
+      p.1 = hi ∧ WF p.2 ∧ p.2.shape = [i.nrows] ∧ p.2.common = i.common ∧
+      ∀ r, denseAt p.2 r [] = denseAt i r hi) ∧
+    (∀ hi ∈ hiCells (i.shape.drop 1), ∃ p ∈ i.slices, p.1 = hi) := by
+  have hf : i.ndim ≤ (i.shape.length - 1) + 1 := by have := h.ndimPos; unfold IIndex.ndim at *; omega
+  have := slices_spec (i.shape.length - 1) i [] h hf
+  unfold IIndex.slices
+  have hfuel : ∀ p, p ∈ slices1d i.shape.length i [] ↔ p ∈ slices1d (i.shape.length - 1) i [] := by
+    intro p
+    -- one spare unit of fuel is never used: with `ndim` axes the recursion is `ndim - 1` deep
+    have hpos := h.ndimPos
+    unfold IIndex.ndim at hpos
+    have key : ∀ (fuel : Nat) (j : IIndex) (base : List Int), j.shape.length ≤ fuel + 1 → 0 < j.shape.length →
+        slices1d (fuel + 1) j base = slices1d fuel j base := by
+      intro fuel
+      induction fuel with
+      | zero =>
+        intro j base hj hp
+        have : ¬ j.shape.length > 1 := by omega
+        simp [slices1d, this]
+      | succ n ihn =>
+        intro j base hj hp
+        by_cases hl : j.shape.length > 1
+        · simp only [slices1d, hl, if_true]
+          congr 1
+          funext c
+          apply ihn
+          · simp [bucket]; omega
+          · simp [bucket]; omega
+        · simp [slices1d, hl]
+    have := key (i.shape.length - 1) i [] (by omega) hpos
+    have hlen : i.shape.length - 1 + 1 = i.shape.length := by omega
+    rw [hlen] at this
+    rw [this]
+  constructor
+  · intro p hp
+    obtain ⟨hi, hhi, h1, h2, h3, h4, h5⟩ := this.1 p ((hfuel p).mp hp)
+    exact ⟨hi, hhi, by simpa using h1, h2, h3, h4, h5⟩
+  · intro hi hhi
+    obtain ⟨p, hp, h1⟩ := this.2 hi hhi
+    exact ⟨p, (hfuel p).mpr hp, by simpa using h1⟩
+
 end Catii.IIdx
